@@ -444,3 +444,5 @@ def check(ctx, run):  # noqa: F811
     from ..ctors import ctor_rule
     ctor_rule(ctx, run, "C05.R10", [L + c for c in ("EntropicRiskMeasure", "EntropicLoss", "IsoelasticLoss", "ExpectedShortfall", "QuadraticCVaR", "OCE")], None,
               "the criterion evaluates the risk measure at another parameter than the one it was created with")
+    from ..ctors import exports_rule
+    exports_rule(ctx, run, "C05.R10", ['pfhedge.nn'])
